@@ -2,6 +2,7 @@
 callbacks and handshake branches (listeners/socks.rs), AuthData::check (auth.rs).  Properties C06, C07."""
 import re
 import z3
+import harness
 from values import Int, Bool, UNIT, Agg, Ref, Opaque, Bytes, SeqV, Future, Stream, BV, simp, concrete, fresh_name
 from engine import State, Unsupported
 import contracts as C
@@ -26,7 +27,7 @@ def spec_http_write_with_body(ck):
     if fn is None:
         return
     ex = ck.engine(loop_bound=5)
-    ex.benign_havoc = re.compile(r'.')
+    ex.benign_havoc = harness.IRRELEVANT
     st = State()
     hk, hv = Bytes.symbolic('hk', 'string'), Bytes.symbolic('hv', 'string')
     headers = SeqV.from_items([Agg('tuple', {0: hk, 1: hv})])
@@ -57,7 +58,7 @@ def _http_callback(ck, which, method, label):
     if fn is None:
         return
     ex = ck.engine(loop_bound=4)
-    ex.benign_havoc = re.compile(r'.')
+    ex.benign_havoc = harness.IRRELEVANT
     st = State()
     rec = {'new': [], 'headers': [], 'write': []}
 
@@ -141,7 +142,7 @@ def _socks_callback(ck, method):
     if fn is None:
         return
     ex = ck.engine(loop_bound=6)
-    ex.benign_havoc = re.compile(r'.')
+    ex.benign_havoc = harness.IRRELEVANT
     st = State()
     has_stream = z3.BitVec('client_stream_present', 64)
     ex.assume(st, z3.ULT(has_stream, BV(2, 64)))
@@ -219,7 +220,7 @@ def spec_socks_handshake(ck):
     if fn is None:
         return
     ex = ck.engine(loop_bound=4)
-    ex.benign_havoc = re.compile(r'.')
+    ex.benign_havoc = harness.IRRELEVANT
     st = State()
     cmd = Int(z3.BitVec('cmd', 8), 8)
     authed = z3.Bool('auth_check_result')
@@ -550,7 +551,7 @@ def spec_frame_channel_handover(ck):
         if fn is None:
             continue
         ex = ck.engine(loop_bound=4, call_depth=8)
-        ex.benign_havoc = re.compile(r'.')
+        ex.benign_havoc = harness.IRRELEVANT
         ex.no_inline = [re.compile(r'HttpRequest|HttpResponse::read_from|frames_from_stream|Context::')]
         st = State()
         inp = Bytes.symbolic('sent_behind_the_head', 'in')
